@@ -8,6 +8,8 @@
 //         -> ARGS .. | CAST recv | ERR(class)          (mode: conv = engine.boxed_cast<T>, noconv = chaiscript::boxed_cast<T>(bv),
 //                                                        eval = engine.eval<T>(script text of the literal))
 //   arg = kind.type.payload  (kinds: var cvar ref cref ptr cptr sp csp nullsp ret uniq upref upcref upsp lit fn vec cvec undef)
+//   route reseat / mode rconv: the (shared_ptr-held) argument is first passed to a C++ function taking std::shared_ptr<T>& that re-seats
+//         it to a new object; the case is then about the object the variable holds now (two-step history)
 //   recv = <static type id>:<value>@<S|D|-|N>[:h<const>]   S = the address C++ received is the argument's own object
 #include "hcommon.hpp"
 #include <map>
@@ -206,6 +208,8 @@ template<typename P> int fnar() { return FnAr<std::remove_cv_t<std::remove_refer
     [] { return fun([](P0 a0, P1 a1) { enter(ID, {shw<P0>(a0, 0), shw<P1>(a1, 1)}); }); }, "", {}, -1, false});
 #define F3(ID, P0, P1, P2) catalogue().push_back(Entry{ID, "native", {FormOf<P0>::name(), FormOf<P1>::name(), FormOf<P2>::name()}, {fnar<P0>(), fnar<P1>(), fnar<P2>()}, \
     [] { return fun([](P0 a0, P1 a1, P2 a2) { enter(ID, {shw<P0>(a0, 0), shw<P1>(a1, 1), shw<P2>(a2, 2)}); }); }, "", {}, -1, false});
+#define F1R(ID, RET, P0, VALUE) catalogue().push_back(Entry{ID, "native", {FormOf<P0>::name()}, {fnar<P0>()}, \
+    [] { return fun([](P0 a0) -> RET { enter(ID, {shw<P0>(a0, 0)}); return VALUE; }); }, "", {}, -1, false});
 #define DYN(ID, TEXT, NAMED, GUARD) catalogue().push_back(Entry{ID, "dyn", {}, {}, nullptr, TEXT, NAMED, GUARD, false});
 
 using CRI = const int &; using RI = int &; using PI = int *; using CPI = const int *; using SPI = std::shared_ptr<int>; using SPCI = std::shared_ptr<const int>;
@@ -241,6 +245,10 @@ static void build_catalogue() {
   DYN(64, "(int x, y) { __log2(64, x, y) }", (std::vector<int>{1, 0}), -1)
   F2(65, SPI, int) F2(66, CRB, CRB)
   F3(70, int, int, int) F3(71, int, double, CRS) F3(72, CRB, int, int) F3(73, Boxed_Value, Boxed_Value, Boxed_Value) F3(74, double, int, int)
+  // overload twins that differ in the constness of the parameter and in the return type
+  F1R(90, int, RB, 1) F1R(91, std::string, CRB, std::string("s1")) F1R(92, std::string, RI, std::string("s1")) F1R(93, int, CRI, 1)
+  F1R(94, int, RI, 1) F1R(95, std::string, CRI, std::string("s1")) F1R(96, Boxed_Value, RS, Boxed_Value(1)) F1R(97, int, CRS, 1)
+  F1R(98, Boxed_Number, PI, Boxed_Number(1)) F1R(99, double, CPI, 1.5)
   F0(80)
   catalogue().push_back(Entry{81, "native", {}, {}, [] { return fun([]() { enter(81, {}); }); }, "", {}, -1, false});
 }
@@ -264,12 +272,30 @@ static void add_convs(ChaiScript_Basic &c, int convset) {
           g_log += " | ENTER " + std::to_string(id) + " [" + show_box(a, 0) + ";" + show_box(b, 1) + "]";
         }), "__log2");
 }
+// re-seating callees: what the script variable holds afterwards is known to the harness independently of the Boxed_Value's cached pointers
+static const void *g_reseat_addr = nullptr;
+static std::string g_reseat_pay;
+template<typename T, typename Mk> static void add_reseat(ChaiScript_Basic &c, Mk mk) {
+  c.add(fun([mk](std::shared_ptr<T> &p) {
+          p = std::make_shared<T>(mk(*p));
+          g_reseat_addr = p.get();
+          g_reseat_pay = pval(static_cast<const T &>(*p));
+        }), "__reseat");
+}
+static void add_reseats(ChaiScript_Basic &c) {
+  add_reseat<int>(c, [](const int &v) { return v + 1000; });
+  add_reseat<std::string>(c, [](const std::string &v) { return "s" + std::to_string(std::stoi(sval(v)) + 1000); });
+  add_reseat<Base>(c, [](const Base &v) { return Base(v.tag + 50); });
+  add_reseat<Derived>(c, [](const Derived &v) { return Derived(v.tag + 50); });
+  add_reseat<Other>(c, [](const Other &v) { return Other(v.tag + 50); });
+}
 static Eng &engine(int convset) {
   static Eng e[2];
   if (!e[convset].chai || e[convset].names > 400) {
     e[convset].chai = vf::make_engine(true);
     e[convset].names = 0;
     add_convs(*e[convset].chai, convset);
+    add_reseats(*e[convset].chai);
   }
   return e[convset];
 }
@@ -349,12 +375,12 @@ static Boxed_Value mk_arg(const std::string &spec, Keep &k, std::string &script_
     default: throw std::runtime_error("bad type " + f[1]);
   }
 }
-static std::string describe_arg(const Boxed_Value &bv) {
+static std::string describe_arg(const Boxed_Value &bv, const std::string *payload = nullptr) {
   const auto &ti = bv.get_type_info();
   // ty const arith undef stor null ret
   int stor = bv.is_undef() ? 3 : (bv.is_ref() ? (std::string(bv.get().type().name()).find("unique_ptr") != std::string::npos ? 2 : 1) : 0);
   return std::to_string(tid_of(ti)) + ":" + (bv.is_const() ? "1" : "0") + ":" + (ti.is_arithmetic() ? "1" : "0") + ":" + (bv.is_undef() ? "1" : "0") + ":"
-       + std::to_string(stor) + ":" + ((!bv.is_undef() && bv.is_null()) ? "1" : "0") + ":" + (bv.is_return_value() ? "1" : "0") + ":" + box_payload(bv);
+       + std::to_string(stor) + ":" + ((!bv.is_undef() && bv.is_null()) ? "1" : "0") + ":" + (bv.is_return_value() ? "1" : "0") + ":" + (payload ? *payload : box_payload(bv));
 }
 
 // keeps converted temporaries alive the way script evaluation does (Function_Push_Pop enables the conversion saves)
@@ -438,12 +464,23 @@ static std::string run_case(const std::string &line) {
       texts.push_back(text);
       g_arg_unknown[j] = (!text.empty() && head[0] == "D" && head[2] == "script");
       g_arg_addr[j] = b.get_const_ptr();
+      if (j == 0 && (head[2] == "reseat" || head[2] == "rconv")) {
+        // history step 1: a C++ function taking std::shared_ptr<T>& re-seats the variable
+        g_reseat_addr = nullptr;
+        chai.set_locals({{"rs", b}});
+        chai.eval("__reseat(rs)");
+        chai.set_locals({});
+        if (!g_reseat_addr) return "BADCASE reseat did not run";
+        g_arg_addr[j] = g_reseat_addr;
+        out += " " + describe_arg(b, &g_reseat_pay);
+        continue;
+      }
       out += " " + (g_arg_unknown[j] ? std::string("text") : describe_arg(b));
     }
   } catch (const std::exception &e) { return std::string("BADCASE ") + e.what(); }
   g_log.clear();
   if (head[0] == "C") {
-    CastCtx ctx{&chai, head[2], texts.empty() ? "" : texts[0]};
+    CastCtx ctx{&chai, head[2] == "rconv" ? std::string("conv") : head[2], texts.empty() ? "" : texts[0]};
     auto it = cast_table().find(head[3]);
     if (it == cast_table().end() || args.size() != 1) return "BADCASE no such cast " + head[3];
     try { out += " | CAST " + it->second(ctx, args[0]); }
